@@ -226,6 +226,25 @@ func (p *Parser) Parse() (*SelectStatement, error) {
 		}
 	}
 
+	// HAVING may also be written after WITH (...): parseHaving above only sees a HAVING
+	// that precedes WITH, and the clause used to be dropped silently in this order.
+	if stmt.Having == "" {
+		snap := p.lexer.save()
+		tok := p.lexer.NextToken()
+		if tok.Type == TokenRParen {
+			tok = p.lexer.NextToken()
+		}
+		if tok.Type == TokenHAVING {
+			if err := p.parseHaving(stmt); err != nil {
+				if !p.errorRecovery.RecoverFromError(ErrorTypeSyntax) {
+					return nil, p.createDetailedError(err)
+				}
+			}
+		} else {
+			p.lexer.restore(snap)
+		}
+	}
+
 	// 解析 ORDER BY 子句
 	if err := p.parseOrderBy(stmt); err != nil {
 		if !p.errorRecovery.RecoverFromError(ErrorTypeSyntax) {
